@@ -318,7 +318,7 @@ func NewMutableWorldFromSource(o *BuildOptions, source FeatureSource) (b6.World,
 }
 
 type modifiedTag struct {
-	value   string
+	value   b6.Expression
 	deleted bool
 }
 
@@ -333,7 +333,7 @@ func modifyTags(t b6.Taggable, modifications map[string]modifiedTag) []b6.Tag {
 		if modifications != nil {
 			if modification, ok := modifications[tag.Key]; ok {
 				if !modification.deleted {
-					modified = append(modified, b6.Tag{Key: tag.Key, Value: b6.NewStringExpression(modification.value)})
+					modified = append(modified, b6.Tag{Key: tag.Key, Value: modification.value})
 				}
 			} else {
 				modified = append(modified, tag)
@@ -346,7 +346,7 @@ func modifyTags(t b6.Taggable, modifications map[string]modifiedTag) []b6.Tag {
 	for key, modification := range modifications {
 		if !modification.deleted {
 			if _, ok := seen[key]; !ok {
-				modified = append(modified, b6.Tag{Key: key, Value: b6.NewStringExpression(modification.value)})
+				modified = append(modified, b6.Tag{Key: key, Value: modification.value})
 			}
 		}
 	}
@@ -360,7 +360,7 @@ func modifyTag(t b6.Taggable, key string, modifications map[string]modifiedTag) 
 			if modification.deleted {
 				return b6.InvalidTag()
 			}
-			return b6.Tag{Key: key, Value: b6.NewStringExpression(modification.value)}
+			return b6.Tag{Key: key, Value: modification.value}
 		}
 	}
 
@@ -461,7 +461,7 @@ func (m ModifiedTags) ModifyOrAddTag(id b6.FeatureID, tag b6.Tag) {
 		tags = make(map[string]modifiedTag)
 		m[id] = tags
 	}
-	tags[tag.Key] = modifiedTag{value: tag.Value.String(), deleted: false}
+	tags[tag.Key] = modifiedTag{value: tag.Value, deleted: false}
 }
 
 func (m ModifiedTags) RemoveTag(id b6.FeatureID, key string) {
@@ -562,7 +562,7 @@ done:
 				select {
 				case <-gc.Done():
 					break done
-				case c <- ModifiedTag{ID: id, Tag: b6.Tag{Key: key, Value: b6.NewStringExpression(value.value)}, Deleted: value.deleted}:
+				case c <- ModifiedTag{ID: id, Tag: b6.Tag{Key: key, Value: value.value}, Deleted: value.deleted}:
 				}
 			}
 		}
@@ -1136,7 +1136,7 @@ func (m *MutableTagsOverlayWorld) AddTag(id b6.FeatureID, tag b6.Tag) {
 		tags = make(map[string]modifiedTag)
 		m.tags[id] = tags
 	}
-	tags[tag.Key] = modifiedTag{value: tag.Value.String(), deleted: false}
+	tags[tag.Key] = modifiedTag{value: tag.Value, deleted: false}
 	m.notifyWatchers(id, tag)
 }
 
